@@ -262,8 +262,13 @@ def explore_type(job):
         seen_viol = {}
         cur_mode = [None]
 
+        blocking = [0]
+
         def viol(key, hist, op, detail):
             seen_viol[key] = seen_viol.get(key, 0) + 1
+            if not key.startswith('site='):
+                # (a recorded site such as F11 is compared in normalised form and does not stop the exploration behind it)
+                blocking[0] += 1
             art = None
             if seen_viol[key] <= 2:
                 art = {'zoo': name, 'schema': text, 'history': [A.op_text(o) for o in hist], 'op': A.op_text(op) if op else None,
@@ -352,7 +357,7 @@ def explore_type(job):
                     kindkey = '%s|%s' % (op[1], op_kind(ref, top, op))
                     out['transitions'] += 1
                     hidden = None
-                    nviol = len(out['viol'])
+                    nviol = blocking[0]
                     for mode in ('sparse', 'dense', 'held'):
                         if mode == 'held' and not op[0]:
                             continue
@@ -372,7 +377,7 @@ def explore_type(job):
                         check_state(msg, new_m, hist, op, mode, kindkey)
                         if mode == 'sparse':
                             hidden = hidden_keys(run_history(hist + (op,), 'sparse'))
-                    if outcome_m == A.OK and len(out['viol']) == nviol:
+                    if outcome_m == A.OK and blocking[0] == nviol:
                         # (a transition that already violated the property is not extended: its
                         # descendants would only repeat the same divergence)
                         key = (repr(new_m), hidden)
